@@ -589,3 +589,9 @@ func (m *Machine) global(g *ssa.Global) *Value {
 }
 
 var _ = types.Typ
+
+// Truth exposes truth for harness code running inside a path.
+func (m *Machine) Truth(v Value) bool { return m.truth(v, "harness") }
+
+// StringEq exposes string equality for harness code.
+func (m *Machine) StringEq(x, y Value) Value { return m.stringEq(x, y) }
